@@ -107,12 +107,16 @@ def _open_resource(
                 return url_file_stream_or_string
         return _to_in_memory_file(url_file_stream_or_string.read())
 
-    looks_like_url = isinstance(
-        url_file_stream_or_string, str
-    ) and urllib.parse.urlparse(url_file_stream_or_string)[0] in (
-        "http",
-        "https",
-    )
+    try:
+        looks_like_url = isinstance(
+            url_file_stream_or_string, str
+        ) and urllib.parse.urlparse(url_file_stream_or_string)[0] in (
+            "http",
+            "https",
+        )
+    except ValueError:
+        # e.g. an unbalanced "[" in the host part
+        looks_like_url = False
     if looks_like_url:
         data = http.get(url_file_stream_or_string, result)
         return io.BytesIO(data)
